@@ -63,6 +63,7 @@ class BasicConverter:
         self.dependency_kwargs: dict[str, DependencyT] = {}
         self.all_args = False
         self.all_kwargs = False
+        self.positional_or_keyword: list[str] = []
         for p in signature.parameters.values():
             if p.kind == inspect.Parameter.POSITIONAL_ONLY:
                 if get_dependency(p.annotation) is not None:
@@ -76,6 +77,8 @@ class BasicConverter:
                     self.dependency_kwargs[p.name] = dep
                     continue
                 self.kwargs[p.name] = p.default
+                if p.kind == inspect.Parameter.POSITIONAL_OR_KEYWORD:
+                    self.positional_or_keyword.append(p.name)
             elif p.kind == inspect.Parameter.VAR_POSITIONAL:
                 self.all_args = True
             elif p.kind == inspect.Parameter.VAR_KEYWORD:
@@ -92,7 +95,10 @@ class BasicConverter:
         kwargs = {name: loaded.pop(name, self.kwargs[name]) for name in self.kwargs}
         if self.all_kwargs:
             kwargs.update(loaded)
-        elif self.all_args:
+        elif self.all_args and loaded:
+            # *args are passed positionally, so they have to be preceded by every
+            # positional-or-keyword argument, otherwise those would get multiple values
+            args.extend(kwargs.pop(name) for name in self.positional_or_keyword)
             args.extend(loaded.values())
         return (args, kwargs)
 
